@@ -541,7 +541,7 @@ static bool mi_heap_page_check_owned(mi_heap_t* heap, mi_page_queue_t* pq, mi_pa
 bool mi_heap_check_owned(mi_heap_t* heap, const void* p) {
   mi_assert(heap != NULL);
   if (heap==NULL || !mi_heap_is_initialized(heap)) return false;
-  if (((uintptr_t)p & (MI_INTPTR_SIZE - 1)) != 0) return false;  // only aligned pointers
+  // note: `p` is not necessarily word aligned (e.g. `mi_malloc_aligned_at` with an odd offset)
   bool found = false;
   mi_heap_visit_pages(heap, &mi_heap_page_check_owned, (void*)p, &found);
   return found;
